@@ -37,7 +37,7 @@ class Unsupported(Exception):
     """An SQL / VTL construct the encoder does not know: the template is reported as not encoded."""
 
 
-FIELDED = ("struct", "tp")     # kinds whose value is a dict of field SVs
+FIELDED = ("struct", "tp", "iv")     # kinds whose value is a dict of field SVs
 
 
 def default_val(kind):
@@ -96,6 +96,27 @@ def as_kind(sv, kind):
     if sv.kind == "date" and kind == "int" or sv.kind == "int" and kind == "date":
         return SV(kind, sv.null, sv.val)
     raise Unsupported("coerce %s -> %s" % (sv.kind, kind))
+
+
+def trunc_real(x):
+    """truncation toward zero of a real term -> Int term"""
+    fl = z3.ToInt(x)
+    return z3.If(z3.Or(x >= 0, z3.ToReal(fl) == x), fl, fl + 1)
+
+
+def int_to_double(ctx, v):
+    """BIGINT -> DOUBLE: exact up to 2^53, round-to-nearest-even above (only modelled when the integers range over the whole
+    int64 domain; under the usual small bound the conversion is exact)"""
+    if not getattr(ctx, "int64", False):
+        return z3.ToReal(v)
+    ax = z3.If(v >= 0, v, -v)
+    res = ax
+    for k in range(53, 63):
+        s = 2 ** (k - 52)
+        q, r = ax / s, ax % s
+        up = z3.Or(r > s // 2, z3.And(r == s // 2, q % 2 == 1))
+        res = z3.If(z3.And(ax >= 2 ** k, ax < 2 ** (k + 1)), q * s + z3.If(up, s, 0), res)
+    return z3.ToReal(z3.If(v >= 0, res, -res))
 
 
 def keep_dc(new, *olds):
@@ -228,7 +249,7 @@ class Ctx:
 
 
 KIND_OF_TYPE = {"Integer": "int", "Number": "real", "String": "str", "Boolean": "bool", "Date": "date",
-                "Time_Period": "tp", "TimePeriod": "tp", "Time": "str", "TimeInterval": "str", "Duration": "str"}
+                "Time_Period": "tp", "TimePeriod": "tp", "Time": "iv", "TimeInterval": "iv", "Duration": "str"}
 
 
 def make_input(ctx, name, comps, nrows, str_alphabet=None, int_bound=None, str_maxlen=3):
@@ -258,6 +279,19 @@ def make_input(ctx, name, comps, nrows, str_alphabet=None, int_bound=None, str_m
                 ymin, ymax = getattr(ctx, "year_range", (1900, 2100))
                 ctx.assume.append(TE.valid_tp(y, ind, num, ymin, ymax))
                 cols[cn] = TE.tp_sv(y, ind, num, nl)
+                continue
+            if k == "iv":
+                # Time value 'YYYY-MM-DD/YYYY-MM-DD' in canonical spelling: two day numbers, start <= end
+                from vt.sqlsmt import cal as _cal
+                # inputs are the civil triples; the day numbers are forward terms (the calendar inverts them by provenance)
+                vs = [z3.Int("%s.%s.%d.%s" % (name, cn, i, f)) for f in ("y1", "m1", "c1", "y2", "m2", "c2")]
+                ctx.input_vars += vs
+                y1, m1, c1, y2, m2, c2 = vs
+                ymin, ymax = getattr(ctx, "year_range", (1900, 2100))
+                d1, d2 = _cal.days_from_civil(y1, m1, c1), _cal.days_from_civil(y2, m2, c2)
+                ctx.assume.append(z3.And(y1 >= ymin, y2 <= ymax, y1 <= y2, m1 >= 1, m1 <= 12, m2 >= 1, m2 <= 12, c1 >= 1, c1 <= _cal.dim(y1, m1),
+                                         c2 >= 1, c2 <= _cal.dim(y2, m2), d1 <= d2))
+                cols[cn] = SV("iv", nl, None, {"d1": SV("date", FALSE, d1), "d2": SV("date", FALSE, d2)})
                 continue
             v = z3.Const("%s.%s.%d" % (name, cn, i), SORTS[k]())
             ctx.input_vars.append(v)
